@@ -11,9 +11,11 @@ of dust-dds:
     remove_matched_publication (:96), get_subscription_matched_status (:165)
   dds/src/rtps/stateful_writer.rs add_matched_reader (:74) / delete_matched_reader (:104) / write_message (:109)
   dds/src/rtps/stateful_reader.rs add_matched_writer (:32) / delete_matched_writer (:51)
-The model is the code WITH the repairs fixes/D3.patch (the RTPS proxy is deleted when the remote endpoint is
-deleted) and fixes/D21.patch (a QoS re-announcement of a matched endpoint is not counted as a new match); the
-behaviour before the repairs is kept as `discoverAsIs` / `undiscoverAsIs` (regression witnesses).
+The model is the code WITH the repairs D3 (the RTPS proxy is deleted when the remote endpoint is deleted), D21 (a QoS
+re-announcement of a matched endpoint is not counted as a new match), D22 (fixes/D22.patch: an endpoint that is not
+compatible any more is un-matched) and D23 (fixes/D23.patch: a removed participant's endpoints are un-matched like deleted
+endpoints and forgotten); the behaviour before the repairs is kept as `discoverAsIs` / `undiscoverAsIs` (before D21 / D3),
+`discoverOld` (before D22) and `goneWriterOld` / `goneReaderOld` (before D23) — regression witnesses.
 Import-free.
 -/
 namespace DustVerif.MatchSet
@@ -94,10 +96,46 @@ def upsertProxy (p : Proxy) (l : List Proxy) : List Proxy :=
 
 def pushNew (k : Key) (l : List Key) : List Key := if l.contains k then l else l ++ [k]
 
+/-- remove_discovered_reader / remove_discovered_writer for one local endpoint: the remote endpoint `k` was deleted
+    (repaired code, fixes/D3.patch: the RTPS proxy is deleted too) -/
+def undiscover (s : St) (k : Key) : St :=
+  if s.matched.any (hasKey k) then
+    let m := eraseKey k s.matched
+    { s with matched := m
+             status := { s.status with current := m.length, dCurrent := s.status.dCurrent - 1 }
+             proxies := s.proxies.filter (proxyNotKey k) }
+  else s
+
 /-- one pass of process_discovered_readers / process_discovered_writers over ONE discovered remote endpoint with the
+    same topic, matching partition and type: `compat` = the incompatible-policy list is empty (computed with the CURRENT
+    QoS of the local endpoint). Repaired code (D21: the counters move only when the key is new; D22: the shortcut for an
+    endpoint matched with identical data applies only while it is compatible, and an incompatible endpoint that is matched is
+    un-matched exactly like a deleted one before the incompatibility is recorded) -/
+def discover (s : St) (a : Ann) (compat : Bool) (loc : Nat) : St :=
+  if s.matched.contains a && compat then s                         -- :810 `continue`
+  else if compat then
+    if s.matched.any (hasKey a.key) then
+      let m := replaceAnn a s.matched                              -- `Some(x) => *x = …`
+      { s with matched := m
+               status := { s.status with current := m.length }
+               proxies := upsertProxy ⟨a.key, loc⟩ s.proxies }
+    else
+      let m := s.matched ++ [a]                                    -- `None => push`
+      { s with matched := m
+               status := { total := s.status.total + 1
+                           dTotal := s.status.dTotal + 1
+                           current := m.length
+                           dCurrent := s.status.dCurrent + 1 }
+               proxies := upsertProxy ⟨a.key, loc⟩ s.proxies }
+  else
+    -- remove_matched_subscription + delete_matched_reader when matched, then add_incompatible_subscription
+    { undiscover s a.key with incompat := pushNew a.key (undiscover s a.key).incompat }
+
+/-- the code before fixes/D22.patch (with D21): the shortcut ignores compatibility and the incompatible branch leaves the
+    matched list alone. One pass of process_discovered_readers / process_discovered_writers over ONE discovered remote endpoint with the
     same topic, matching partition and type: `compat` = the incompatible-policy list is empty.
     (repaired code, fixes/D21.patch: the counters move only when the key is new) -/
-def discover (s : St) (a : Ann) (compat : Bool) (loc : Nat) : St :=
+def discoverOld (s : St) (a : Ann) (compat : Bool) (loc : Nat) : St :=
   if s.matched.contains a then s                                   -- :810 `continue`
   else if compat then
     if s.matched.any (hasKey a.key) then
@@ -130,16 +168,6 @@ def discoverAsIs (s : St) (a : Ann) (compat : Bool) (loc : Nat) : St :=
              proxies := upsertProxy ⟨a.key, loc⟩ s.proxies }
   else { s with incompat := pushNew a.key s.incompat }
 
-/-- remove_discovered_reader / remove_discovered_writer for one local endpoint: the remote endpoint `k` was deleted
-    (repaired code, fixes/D3.patch: the RTPS proxy is deleted too) -/
-def undiscover (s : St) (k : Key) : St :=
-  if s.matched.any (hasKey k) then
-    let m := eraseKey k s.matched
-    { s with matched := m
-             status := { s.status with current := m.length, dCurrent := s.status.dCurrent - 1 }
-             proxies := s.proxies.filter (proxyNotKey k) }
-  else s
-
 /-- the code before fixes/D3.patch: the proxy list is not touched -/
 def undiscoverAsIs (s : St) (k : Key) : St :=
   if s.matched.any (hasKey k) then
@@ -153,15 +181,21 @@ def annNotPfx (p : Nat) (a : Ann) : Bool := !(a.key.pfx == p)
 /-- the proxies deleted by remove_discovered_participant: those of MATCHED endpoints with the prefix -/
 def proxyKept (m : List Ann) (p : Nat) (x : Proxy) : Bool := !(x.key.pfx == p && (keys m).contains x.key)
 
-/-- remove_discovered_participant, the loop over the data writers (:2668-2683): proxies of matched readers with the
+/-- remove_discovered_participant (repaired, fixes/D23.patch): every endpoint the removed participant announced is taken out
+    of the discovered lists and remove_discovered_reader / _writer runs for it on every local endpoint — a no-op for the
+    ones that are not matched, so what matters are the matched endpoints of that participant, in list order -/
+def goneKeys (s : St) (p : Nat) : List Key := (keys s.matched).filter (fun k => k.pfx == p)
+def gone (s : St) (p : Nat) : St := (goneKeys s p).foldl undiscover s
+
+/-- before fixes/D23.patch — remove_discovered_participant, the loop over the data writers: proxies of matched readers with the
     prefix are deleted, the matched list is purged, the COUNTERS ARE NOT TOUCHED (D23) -/
-def goneWriter (s : St) (p : Nat) : St :=
+def goneWriterOld (s : St) (p : Nat) : St :=
   { s with proxies := s.proxies.filter (proxyKept s.matched p)
            matched := s.matched.filter (annNotPfx p) }
 
-/-- remove_discovered_participant, the loop over the data readers (:2647-2666): proxies of matched writers with the
+/-- before fixes/D23.patch — remove_discovered_participant, the loop over the data readers: proxies of matched writers with the
     prefix are deleted; the matched list and the counters are NOT touched (D23) -/
-def goneReader (s : St) (p : Nat) : St :=
+def goneReaderOld (s : St) (p : Nat) : St :=
   { s with proxies := s.proxies.filter (proxyKept s.matched p) }
 
 /-- get_publication_matched_status / get_subscription_matched_status (also run for every listener call):
@@ -191,9 +225,7 @@ deriving DecidableEq, Repr
 def step (side : Side) (s : St) : Step → St
   | .discover a c l => discover s a c l
   | .undiscover k => undiscover s k
-  | .gone p => match side with
-    | .writer => goneWriter s p
-    | .reader => goneReader s p
+  | .gone p => gone s p
   | .read => (readStatus s).1
 
 def run (side : Side) (s : St) : List Step → St
